@@ -9,6 +9,9 @@ Four exhaustive lattices around a payload alphabet:
   sine     stationary sinusoids at EVERY interior grid line, amplitudes over three decades, payload phases: complex
            amplitude ratios ('per', 1e-9);
   classes  FDD / EFDD / FSDD / pLSCF .result.{freq,Sy} after a real SingleSetup run.
+Every part walks, next to the powers of two and the round lengths, segment lengths with a prime factor >= 13 (ROUGH: 17, 26, 34,
+39, 52, 65, 130, 514, 998, 1018, 1023, 4082; even and odd, small and large): the grid is fs/nxseg for EVERY nxseg in 16..4096, not
+only for the lengths an FFT library finds convenient.
 """
 import itertools
 
@@ -39,7 +42,10 @@ ASSUMPTIONS = [
     "30 % in the median over lines >= 2 ('cor'); records of 60 and 100 segments (the statement fixes no length for this test; "
     "at 20 segments without overlap the estimator's scatter on the unchanged tree reaches 4.6 %, too close to the 5 % limit "
     "to be judged without false alarms; at >= 60 segments it stays below 2.5 % over seeds 0..9)",
-    "integer nxseg*pov only, as in the quantifier; odd segment lengths (25, 75) are covered for the periodogram estimator only (grid = k fs/nxseg, "
+    "segment-length axis: powers of two, round lengths (20, 100; odd 25, 75) and lengths with a prime factor >= 13 (17, 26, 34, 39, 52, "
+    "65, 130, 514, 998, 1018, 1023, 4082 - lengths for which an FFT library would rather transform a longer, padded segment), on all "
+    "four parts; their overlaps are the fractions of ROUGH_POV, all with nxseg*pov an exact integer (asserted when the lattices are built)",
+    "integer nxseg*pov only, as in the quantifier; odd segment lengths (25, 75; 17, 39, 65, 1023) are covered for the periodogram estimator only (grid = k fs/nxseg, "
     "k = 0..floor(nxseg/2); the correlogram route pads to nxseg points of an even-length transform and is not defined for odd nxseg)",
 ]
 
@@ -47,6 +53,36 @@ TOL_WELCH = 1e-10
 TOL_BILIN = 1e-10
 TOL_SINE = 1e-9
 TOL_GRID = 1e-12
+
+# segment lengths with a prime factor >= 13 ("rough" lengths: not of the form 2^a 3^b 5^c 7^d 11^e) -> overlaps with integer nxseg*pov
+ROUGH_POV = {
+    17: (0.0, 8 / 17), 26: (0.0, 0.5), 34: (0.0, 0.5), 39: (0.0, 1 / 3, 2 / 3), 52: (0.0, 0.25, 0.5, 0.75), 65: (0.0, 0.2, 0.6),
+    130: (0.0, 0.5, 0.3), 514: (0.0, 0.5), 998: (0.0, 0.5), 1018: (0.0, 0.5), 1023: (0.0, 1 / 3), 4082: (0.0, 0.5),
+}
+
+
+def largest_prime_factor(n):
+    n = int(n)
+    p, best = 2, 1
+    while p * p <= n:
+        while n % p == 0:
+            best, n = p, n // p
+        p += 1
+    return max(best, n) if n > 1 else best
+
+
+def rough(nxseg):
+    return largest_prime_factor(nxseg) >= 13
+
+
+def rough_key(nxseg):
+    return "odd" if nxseg % 2 else "even"
+
+
+for _n, _ps in ROUGH_POV.items():
+    assert rough(_n) and 16 <= _n <= 4096, _n
+    for _p in _ps:
+        assert 0.0 <= _p < 1.0 and float(_n * _p).is_integer(), (_n, _p)       # inside the quantifier: integer nxseg*pov
 
 
 def sd_est(Yall, Yref, dt, nxseg, method, pov):
@@ -244,6 +280,8 @@ def lattice_case(item):
                                             f"{min(e_d, e_r):.3g} (relative); {cfg}", case)
             else:
                 t.outcomes["parseval-ok:" + ("segment-means-removed" if e_d <= e_r else "raw")] += 1
+    if rough(nxseg) and not t.violations:
+        t.outcomes[f"rough-nxseg-ok:lattice:{method}:{rough_key(nxseg)}"] += 1
     if idx % 997 == 0:
         t.sample({"part": "lattice", "n_all": n_all, "refs": list(refs), "nxseg": nxseg, "pov": pov, "segments": nseg, "fs": fs,
                   "method": method, "errors": errs})
@@ -303,6 +341,8 @@ def delay_case(item):
                     f"segments={nseg} fs={fs}", case)
     else:
         t.outcomes[f"delay-ok:{method}"] += 1
+        if rough(nxseg):
+            t.outcomes[f"rough-nxseg-ok:delay:{method}:{rough_key(nxseg)}"] += 1
         if float(np.median(opp[sl])) > 1.0:
             t.outcomes[f"delay:opposite-conjugation-would-fail:{method}"] += 1
     if idx % 401 == 0:
@@ -362,6 +402,8 @@ def sine_case(item):
                             f"e.g. [0,{j}]: got {S[i, j, k] / S[i, i, k]!r}, required {A[j] / A[i]!r}", case)
             else:
                 t.outcomes["sine-ok"] += 1
+                if rough(nxseg):
+                    t.outcomes[f"rough-nxseg-ok:sine:{rough_key(nxseg)}"] += 1
     if idx % 23 == 0:
         t.sample({"part": "sine", "n": n, "nxseg": nxseg, "pov": pov, "segments": nseg, "fs": fs, "lines": [1, nxseg // 2 - 1],
                   "amplitude_tuples": len(AMPS) ** n, "worst_error": t.max_err.get("sine:amplitude-ratio")})
@@ -417,6 +459,8 @@ def class_case(item):
                                               f"(nxseg={nxseg}, pov={pov}) by {e:.3g}; {cfg}", case)
             return t
     t.outcomes[f"class-ok:{cls}:{method}"] += 1
+    if rough(nxseg):
+        t.outcomes[f"rough-nxseg-ok:class:{cls}:{method}"] += 1
     if idx % 13 == 0:
         t.sample({"part": "class", "class": cls, "n": n, "nxseg": nxseg, "pov": pov, "method": method, "fs": fs})
     return t
@@ -427,6 +471,11 @@ def class_case(item):
 
 POVS = (0.0, 0.25, 0.5, 0.75)
 FSS = (0.01, 1.0, 102.4)
+ROUGH_SMALL = (17, 26, 34, 39, 52, 65)           # lattice
+ROUGH_LARGE = (514, 998, 1018, 1023, 4082)       # lattice
+ROUGH_DELAY = (65, 130, 998, 1023)               # delays 1..nxseg//64 need nxseg >= 64
+ROUGH_SINE = (17, 26, 39)
+ROUGH_CLASS = (52, 65, 130, 1018)
 
 
 def lattice(thorough):
@@ -473,6 +522,20 @@ def lattice(thorough):
                         for si, nseg in enumerate((2, 3, 5.5)):
                             fs = FSS[(pi + si + len(refs)) % 3]
                             out.append((len(out), n_all, refs, nxseg, pov, nseg, fs, "per"))
+            # segment lengths with a prime factor >= 13, small (every reference list) and large (reference lists: all channels in
+            # both orders; thorough also the last channel alone); both estimators for the even ones, periodogram for the odd ones;
+            # quick leaves out 34 and 514
+            if n_all <= (4 if thorough else 3):
+                for nxseg in ROUGH_SMALL + ROUGH_LARGE:
+                    if nxseg in ROUGH_LARGE and not (len(refs) == n_all or (thorough and refs == [n_all - 1])):
+                        continue
+                    if not thorough and nxseg in (34, 514):
+                        continue
+                    for pi, pov in enumerate(ROUGH_POV[nxseg]):
+                        for si, nseg in enumerate((2, 3, 5.5) if thorough else (2, 5.5)):
+                            fs = FSS[(pi + si + len(refs)) % 3]
+                            for method in (("per", "cor") if nxseg % 2 == 0 else ("per",)):
+                                out.append((len(out), n_all, refs, nxseg, pov, nseg, fs, method))
     return out
 
 
@@ -492,6 +555,22 @@ def delay_lattice(thorough):
                             for method in ("per", "cor"):
                                 for (n, s, c) in (places if nxseg <= 256 else places[1:3]):
                                     out.append((len(out), n, s, c, nxseg, d, g, pov, nseg, fs, method))
+    # segment lengths with a prime factor >= 13 (odd ones: periodogram only). thorough: every delay 1..nxseg//64 (beyond nxseg 256: 1, 2, 4, 8, 12, nxseg//64), every overlap of
+    # ROUGH_POV, 60 and 100 segments, both fs; quick: the two ends of the delay range, the first two overlaps, 60 segments (the shorter,
+    # i.e. noisier, record), fs alternating over (gain, delay)
+    for nxseg in ROUGH_DELAY:
+        dmax = nxseg // 64
+        ds = sorted({1, dmax}) if not thorough else range(1, dmax + 1) if nxseg <= 256 else sorted({1, 2, 4, 8, 12, dmax})
+        for di, d in enumerate(ds):
+            for gi, g in enumerate((0.1, -0.1, 1.0, -1.0, 10.0, -10.0)):
+                for pov in (ROUGH_POV[nxseg] if thorough else ROUGH_POV[nxseg][:2]):
+                    for nseg in ((60, 100) if thorough else (60,)):
+                        for fi, fs in enumerate((0.01, 102.4)):
+                            if not thorough and fi != (gi + di) % 2:
+                                continue
+                            for method in (("per", "cor") if nxseg % 2 == 0 else ("per",)):
+                                for (n, s, c) in (places if nxseg <= 256 else places[1:3]):
+                                    out.append((len(out), n, s, c, nxseg, d, g, pov, nseg, fs, method))
     # one long record per estimator (3 x 3 x 480 000 samples > 2**22)
     for method in ("per", "cor"):
         out.append((len(out), 3, 0, 2, 64, 1, -10.0, 0.0, 7500, 100.0, method))
@@ -508,6 +587,15 @@ def sine_lattice(thorough):
                         if not thorough and nxseg > 16 and fi != (pi + si + n) % 3:
                             continue            # quick: every fs at nxseg 16; beyond, fs rotates over (overlap, length, channels)
                         out.append((len(out), n, nxseg, pov, nseg, fs))
+        # segment lengths with a prime factor >= 13, even and odd (odd nxseg: lines 1..(nxseg-3)/2; the last line (nxseg-1)/2 is the
+        # neighbour of Nyquist, where the mirror image of a real sinusoid falls inside the Hann main lobe: not "away from Nyquist")
+        for nxseg in ROUGH_SINE:
+            for pi, pov in enumerate(ROUGH_POV[nxseg] if thorough else ROUGH_POV[nxseg][:2]):
+                for si, nseg in enumerate((2, 3, 5.5) if thorough else (2, 5.5)):
+                    for fi, fs in enumerate(FSS):
+                        if not thorough and fi != (pi + si + n) % 3:
+                            continue
+                        out.append((len(out), n, nxseg, pov, nseg, fs))
     return out
 
 
@@ -519,6 +607,15 @@ def class_lattice(thorough):
                 for pov in (POVS if thorough else (0.25, 0.5)):
                     for method in ("per", "cor"):
                         out.append((len(out), cls, n, nxseg, pov, method, 50.0))
+    # segment lengths with a prime factor >= 13 (odd: periodogram only); thorough: every overlap of ROUGH_POV, quick: one overlap per
+    # (class, channels, nxseg), rotating
+    for ci, cls in enumerate(("FDD", "EFDD", "FSDD", "pLSCF")):
+        for ni, n in enumerate((2, 3, 5) if thorough else (2, 3)):
+            for xi, nxseg in enumerate(ROUGH_CLASS):
+                povs = ROUGH_POV[nxseg]
+                for pov in (povs if thorough else (povs[(ci + ni + xi) % len(povs)],)):
+                    for method in (("per", "cor") if nxseg % 2 == 0 else ("per",)):
+                        out.append((len(out), cls, n, nxseg, pov, method, 50.0))
     return out
 
 
@@ -529,17 +626,28 @@ def explore(ctx):
     C = class_lattice(ctx.thorough)
     ctx.bounds = {
         "lattice": {"points": len(L), "channels": sorted({c[1] for c in L}), "reference_lists": sorted({tuple(c[2]) for c in L})[:80],
-                    "nxseg": sorted({c[3] for c in L}), "pov": list(POVS), "length_in_segments": [2, 3, 5.5], "fs": [0.01, 1.0, 100.0],
+                    "nxseg": sorted({c[3] for c in L}), "pov": list(POVS), "length_in_segments": [2, 3, 5.5], "fs": list(FSS),
+                    "nxseg_with_prime_factor>=13": {str(k): {"pov": sorted({c[4] for c in L if c[3] == k}),
+                                                             "methods": sorted({c[7] for c in L if c[3] == k}),
+                                                             "points": sum(1 for c in L if c[3] == k)}
+                                                    for k in sorted({c[3] for c in L if rough(c[3])})},
                     "fs_note": "thorough: full product (nxseg >= 1024 with > 4 channels: fs = 1 only); quick: full product at nxseg 16, beyond "
                                "that one fs per point, rotating over (overlap, length, number of references) so that every fs meets every value of each",
                     "methods": ["per", "cor"], "library_calls_per_point": 7},
         "delay": {"points": len(D), "nxseg": sorted({c[4] for c in D}), "delays": "1..nxseg/64 (all up to 16, then 1..8,12,16,24,32,48,63,64)",
-                  "gains": [0.1, -0.1, 1.0, -1.0, 10.0, -10.0], "pov": sorted({c[7] for c in D}), "segments": [60, 100], "fs": [0.01, 100.0],
+                  "gains": [0.1, -0.1, 1.0, -1.0, 10.0, -10.0], "pov": sorted({c[7] for c in D}), "segments": [60, 100], "fs": [0.01, 102.4],
+                  "nxseg_with_prime_factor>=13": {str(k): {"delays": sorted({c[5] for c in D if c[4] == k}), "pov": sorted({c[7] for c in D if c[4] == k}),
+                                                           "methods": sorted({c[10] for c in D if c[4] == k}),
+                                                           "points": sum(1 for c in D if c[4] == k)}
+                                                  for k in sorted({c[4] for c in D if rough(c[4])})},
                   "placements(n,source,copy)": [(2, 0, 1), (2, 1, 0), (3, 0, 2), (3, 2, 1)], "methods": ["per", "cor"]},
-        "sine": {"items": len(S), "nxseg": [16, 32, 64], "lines": "every k in 1..nxseg/2-1", "amplitudes": list(AMPS), "channels": [2, 3],
-                 "amplitude_tuples": "all of amplitudes^channels", "pov": list(POVS), "length_in_segments": [2, 3, 5.5], "fs": [0.01, 1.0, 100.0]},
+        "sine": {"items": len(S), "nxseg": sorted({c[2] for c in S}), "lines": "every k in 1..floor(nxseg/2)-1", "amplitudes": list(AMPS), "channels": [2, 3],
+                 "amplitude_tuples": "all of amplitudes^channels", "pov": list(POVS), "length_in_segments": [2, 3, 5.5], "fs": list(FSS),
+                 "nxseg_with_prime_factor>=13": {str(k): {"pov": sorted({c[3] for c in S if c[2] == k}), "items": sum(1 for c in S if c[2] == k)}
+                                                 for k in sorted({c[2] for c in S if rough(c[2])})}},
         "classes": {"points": len(C), "classes": ["FDD", "EFDD", "FSDD", "pLSCF"], "channels": sorted({c[2] for c in C}),
-                    "nxseg": sorted({c[3] for c in C}), "pov": sorted({c[4] for c in C}), "methods": ["per", "cor"]},
+                    "nxseg": sorted({c[3] for c in C}), "pov": sorted({c[4] for c in C}), "methods": ["per", "cor"],
+                    "nxseg_with_prime_factor>=13": {str(k): sum(1 for c in C if c[3] == k) for k in sorted({c[3] for c in C if rough(c[3])})}},
     }
     # payload records are generated once, before the workers are forked
     for c in L:
@@ -557,6 +665,12 @@ def explore(ctx):
                 "delay-ok:per", "delay-ok:cor", "delay:opposite-conjugation-would-fail:per", "delay:opposite-conjugation-would-fail:cor",
                 "sine-ok", "class-ok:FDD:per", "class-ok:EFDD:per", "class-ok:FSDD:per", "class-ok:pLSCF:per", "class-ok:FDD:cor",
                 "class-ok:pLSCF:cor")
+    # vacuity monitors of the segment lengths with a prime factor >= 13: every part, both parities, both estimators where defined
+    ctx.require("rough-nxseg-ok:lattice:per:even", "rough-nxseg-ok:lattice:per:odd", "rough-nxseg-ok:lattice:cor:even",
+                "rough-nxseg-ok:delay:per:even", "rough-nxseg-ok:delay:per:odd", "rough-nxseg-ok:delay:cor:even",
+                "rough-nxseg-ok:sine:even", "rough-nxseg-ok:sine:odd",
+                *[f"rough-nxseg-ok:class:{c}:per" for c in ("FDD", "EFDD", "FSDD", "pLSCF")],
+                "rough-nxseg-ok:class:FDD:cor", "rough-nxseg-ok:class:pLSCF:cor")
     if not any(k.startswith("parseval-ok") for k in ctx.tally.outcomes):
         ctx.require("parseval-ok")
 
